@@ -62,6 +62,20 @@ func safeBuild(c *core.Ctx, t *gen.Node) (e error, m gen.Built, ok bool) {
 
 // coverTree records kind / adjacency coverage for a tree.
 func coverTree(c *core.Ctx, t *gen.Node) {
+	// kinds that must not be the outermost layer get a stack layer on top (in place: every
+	// monitor calls coverTree on its tree before building or modelling it)
+	// (a hidden error is the outermost layer of its own rendering: same treatment)
+	if gen.Specs[t.Kind].NoRoot {
+		old := *t
+		*t = gen.Node{Kind: "withstack", Kids: []*gen.Node{&old}}
+	}
+	gen.Walk(t, func(n *gen.Node, _ bool) {
+		for i, h := range n.Hidden {
+			if gen.Specs[h.Kind].NoRoot {
+				n.Hidden[i] = &gen.Node{Kind: "withstack", Kids: []*gen.Node{h}}
+			}
+		}
+	})
 	gen.Walk(t, func(n *gen.Node, hid bool) {
 		c.Cover("kinds", n.Kind)
 		for _, k := range n.Kids {
